@@ -100,7 +100,10 @@ type c16Shared struct {
 	truthOrder, truthG, truthH2S, truthH2G, truthNegG []byte
 }
 
-func c16BuildShared(seed uint64) *c16Shared {
+// history: some of the shared arguments are objects the library itself has already worked on (receivers of Pow, Multiply,
+// Double, the decoders, the encoders) instead of objects whose limbs were written; not in concurrent-first runs, where
+// nothing of the library may have run before the goroutines start.
+func c16BuildShared(seed uint64, history bool) *c16Shared {
 	r := gen.New(seed, "C16/shared")
 	pool := gen.NewPool(r, 4)
 	sh := &c16Shared{}
@@ -123,6 +126,28 @@ func c16BuildShared(seed uint64) *c16Shared {
 
 	sh.scalars = append(sh.scalars, new(secp256k1.Scalar))
 
+	if history {
+		a := mon.Scal(gen.Draw(r, oracle.N).X).Pow(mon.Scal(big.NewInt(5)))
+		_, _ = a.Bits(), a.Encode()
+		a.Invert().Pow(mon.Scal(big.NewInt(3)))
+
+		b := secp256k1.NewScalar().SetUInt64(77)
+		b.Pow(b)
+		_ = b.LessOrEqual(a)
+
+		sh.scalars = append(sh.scalars, a, b)
+
+		e1 := secp256k1.Base().Multiply(mon.Scal(big.NewInt(12345))).Double()
+		_, _ = e1.Encode(), e1.EncodeUncompressed()
+
+		e2 := secp256k1.NewElement()
+		_ = e2.Decode(oracle.EncC(oracle.Dbl(oracle.G())))
+		e2.Subtract(secp256k1.Base()).Negate()
+		_ = e2.Equal(e1)
+
+		sh.elems = append(sh.elems, e1, e2)
+	}
+
 	for i, lay := range h2cLayouts {
 		m, _ := layoutSlice(r.Bytes([]int{0, 3, 64, 100, 200}[i%5]), lay, 0x11)
 		sh.msgs = append(sh.msgs, m)
@@ -135,7 +160,7 @@ func c16BuildShared(seed uint64) *c16Shared {
 
 	for i, lay := range h2cLayouts {
 		p := gen.Fresh(r).P
-		for _, b := range [][]byte{oracle.EncC(p), oracle.EncU(p), {0}, oracle.Bytes32(gen.Draw(r, oracle.N).X), oracle.Bytes32(oracle.N), append([]byte{2}, oracle.Bytes32(oracle.P)...), r.Bytes(33), r.Bytes(i)} {
+		for _, b := range [][]byte{oracle.EncC(p), oracle.EncC(oracle.Neg(p)), oracle.EncU(p), {0}, oracle.Bytes32(gen.Draw(r, oracle.N).X), oracle.Bytes32(oracle.N), append([]byte{2}, oracle.Bytes32(oracle.P)...), r.Bytes(33), r.Bytes(i)} {
 			e, _ := layoutSlice(b, lay, 0x33)
 			sh.encs = append(sh.encs, e)
 		}
@@ -179,7 +204,7 @@ func digest(parts ...any) uint64 {
 	return h.Sum64()
 }
 
-const c16NOps = 58
+const c16NOps = 60
 
 func c16Do(op int, st *c16Own, sh *c16Shared, r *gen.Rng) (name string, d uint64, deterministic bool) {
 	ei := r.Intn(len(sh.elems))
@@ -386,6 +411,21 @@ func c16Do(op int, st *c16Own, sh *c16Shared, r *gen.Rng) (name string, d uint64
 		}
 
 		return "truth", 0, true
+	case 58:
+		// a private copy of a shared scalar is worked on: whatever Copy hands out must not be shared with the original
+		// or with the copies other goroutines hold
+		c := S.Copy()
+		c.Pow(S2)
+		c.Square().Invert()
+
+		return fmt.Sprintf("Scalar.Copy(s%d).Pow(s%d)", si, sj), digest(c.Encode(), c.Bits()), true
+	case 59:
+		c := E.Copy()
+		c.Double().Add(E)
+		k := secp256k1.NewElement().Set(E)
+		k.Negate()
+
+		return fmt.Sprintf("Element.Copy(e%d)/Set(e%d) then changed", ei, ei), digest(c.Encode(), k.EncodeUncompressed()), true
 	default:
 		if !bytes.Equal(secp256k1.HashToGroup(sh.probeMsg, sh.probeDst).Encode(), sh.truthH2G) ||
 			!bytes.Equal(secp256k1.Base().Multiply(sh.scalars[3]).Encode(), sh.truthNegG) {
@@ -533,7 +573,7 @@ var reArg = regexp.MustCompile(`\((e|s|enc|msg|arr)\d`)
 
 // C16Load is the child: solo pass, then the concurrent pass, then comparison.
 func C16Load(seed uint64, goroutines, iters int, out string, concFirst bool) int {
-	sh := c16BuildShared(seed)
+	sh := c16BuildShared(seed, !concFirst)
 	res := &c16ChildResult{Goroutines: goroutines, Iters: iters, GOMAXPROCS: runtime.GOMAXPROCS(0), PerFn: map[string]int64{}}
 
 	// package-level state as seen through the API: what a fresh element looks like, and the identity of the error
